@@ -900,6 +900,15 @@ def as_relation(fact):
     # canonical orientation: a constant goes to the right (`2 > len` is `len < 2`)
     if a.strip().kind == 'const' and b.strip().kind != 'const':
         op, a, b = CMP_SWAP[op], b, a
+    # unsigned comparisons against 0 / 1 have one meaning whatever the spelling: `x <= 0` and `x < 1` are `x == 0`,
+    # `x >= 1` is `x > 0`
+    bc = b.strip()
+    if bc.kind == 'const' and bc.info.get('int') is not None and str(bc.info.get('ty', '')) in ('u8', 'u16', 'u32', 'u64', 'u128', 'usize'):
+        v = bc.info['int']
+        if (op, v) in (('Le', 0), ('Lt', 1)):
+            op, b = 'Eq', E('const', info=dict(bc.info, int=0))
+        elif (op, v) == ('Ge', 1):
+            op, b = 'Gt', E('const', info=dict(bc.info, int=0))
     return Rel(op, a, b)
 
 
@@ -1021,7 +1030,11 @@ class Program:
         if normalise:
             from . import normalize as _nz
             texts = [_nz.apply_callee_aliases(t) for t in texts]
+        from . import normalize as _nzf
         crates = [json.loads(t) for t in texts]
+        for d in crates:
+            for fd in d['fns']:
+                _nzf.fold_const_switches(fd)
         table = None
         if normalise:
             from . import normalize
@@ -1032,6 +1045,9 @@ class Program:
             self.renamed.update(normalize.detect_adt_renames(crates, table))
             if self.renamed:
                 crates = [json.loads(normalize.apply_renames(t, self.renamed)) for t in texts]
+                for d in crates:
+                    for fd in d['fns']:
+                        normalize.fold_const_switches(fd)
             self.renamed_fields = normalize.rename_private_fields(crates, table)
             self.inlined = normalize.inline_new_helpers(crates, table)
             self.inlined += [(c, [f]) for c, f in normalize.inline_local_closure_calls(crates, table)]
